@@ -8,7 +8,7 @@ import (
 )
 
 func cloneCase(c *RCase) *RCase {
-	n := &RCase{Tpls: c.Tpls, Meta: map[string]any{}}
+	n := &RCase{Tpls: c.Tpls, Meta: map[string]any{}, Entries: c.Entries}
 	n.Ops = append([]SOp(nil), c.Ops...)
 	for k, v := range c.Meta {
 		n.Meta[k] = v
@@ -113,7 +113,7 @@ func init() {
 		// fixed skeletons: every placement over a small set
 		tag := 0
 		mk := func(body string, incs ...string) *RCase {
-			c := &RCase{}
+			c := &RCase{Entries: true}
 			for i, s := range incs {
 				c.Tpls = append(c.Tpls, TplDef{Key: fmt.Sprintf("inc%d", i), Src: s, KeepFmt: true})
 			}
